@@ -295,6 +295,55 @@ func (e *Engine) symNative(name string, args []value) value {
 			}
 			return normStr(out)
 		}
+	case "strings.Count":
+		if sep, ok := args[1].(string); ok && len(sep) == 1 {
+			// number of occurrences of one byte: a branch-free sum
+			acc := tt.BVConst(64, 0)
+			for _, c := range strBytes(args[0]) {
+				acc = tt.BVBin("bvadd", acc, tt.Ite(tt.Eq(e.toTerm(c), tt.BVConst(8, uint64(sep[0]))), tt.BVConst(64, 1), tt.BVConst(64, 0)))
+			}
+			return e.fromTerm(acc, types.Int)
+		}
+	case "strings.IndexByte", "strings.Index", "strings.Contains", "strings.ContainsRune", "strings.IndexRune":
+		var c value
+		switch x := args[1].(type) {
+		case string:
+			if len(x) == 1 {
+				c = x[0]
+			}
+		case uint8:
+			c = x
+		case int32:
+			if x >= 0 && x < 0x80 {
+				c = uint8(x)
+			}
+		case sv:
+			if x.k == types.Uint8 {
+				c = x
+			} else if x.k == types.Int32 {
+				e.assumeASCII(x)
+				c = e.convScalar(types.Uint8, x)
+			}
+		}
+		if c != nil {
+			idx := -1
+			for i, b := range strBytes(args[0]) {
+				if e.fork(tt.Eq(e.toTerm(b), e.toTerm(c))) {
+					idx = i
+					break
+				}
+			}
+			if strings.HasPrefix(name, "strings.Contains") {
+				return idx >= 0
+			}
+			return idx
+		}
+	case "strings.HasSuffix":
+		s, p := strBytes(args[0]), strBytes(args[1])
+		if len(p) > len(s) {
+			return false
+		}
+		return symStrEq(e, symstr{s[len(s)-len(p):]}, symstr{p})
 	case "strings.HasPrefix":
 		s, p := strBytes(args[0]), strBytes(args[1])
 		if len(p) > len(s) {
